@@ -1,14 +1,35 @@
 """property -> rules registry"""
 import rules_sched as S
+import rules_dep as D
+import rules_ctx as K
 
 TB = ['rustc (nightly) MIR construction and type checking of the current /repo tree', 'Rust/C11 memory model and std/parking_lot/dashmap semantics',
       'the hand argument of DESIGN.md section 2 linking the structural obligations to the behaviour']
 AS = ['user-supplied databases and precompiles do not call back into the scheduler', 'analysis covers the library target with default features']
 
+NOT_APPLICABLE = {}
+
 PROPS = {
-    'C02': dict(level='other', rules=[S.N1_timestamp_before_scan, S.N2_mark_before_rewind, S.N3_publish_before_rewind, S.N6_finality,
+    'C14': dict(claim='Complete for this property: O1 (every public path to results/state mutation or thread spawning passes through the closure given to run_once), O2 (closure runs exactly on the success edge of one strong compare_exchange(false,true); losing edge returns the once-error before touching anything), O3 (no other access to `started`, initially false), O4 (take_result_and_state consumes self), O5 (results initially empty) are all decided mechanically; under Rust aliasing rules and RMW atomicity they imply at-most-once execution for every interleaving of entry-point calls.',
+                level='proof', rules=[K.O_run_once],
+                explanation='O1-O5 jointly imply the statement under the trusted base (Rust aliasing, RMW atomicity); each is decided on the MIR of the current tree',
+                trusted_base=TB, assumptions=AS),
+    'C15': dict(claim='Decides the cursor mechanics per site: claim_before table (U1), rewind effects (U2), frontier publish/advance/limit tables (U3), RMW kinds (A6: fetch_min rewind, CAS claim, fetch_max timestamps/frontier), minimum orderings of the logical clock and published cursors (A1-A5), and the obligations that make a validation older than a covering rewind ineligible for finality (N1, N6, N7). The weak-memory interleaving behaviour as a whole is NOT claimed.',
+                level='other', rules=[K.A_atomics, K.U1_claim_before, K.U2_rewind, K.U3_frontier, S.N1_timestamp_before_scan, S.N6_finality, S.N7_rewind_under_guard],
+                explanation='cursor/frontier decision tables, RMW kinds and the minimum-ordering table, decided per site; weak-memory behaviour as a whole is not claimed',
+                trusted_base=TB, assumptions=AS),
+    'C17': dict(claim='Decides park/unpark discipline (W1: park only straight from a true predicate, only wait_while parks, only notify unparks, registration before waiting on the own slot), publish-before-notify at every producer (W2), notify coverage (W3: validate notifies unless txid != finality_idx() was read after publication; every finality publication is announced before the finality thread can block; cancel sets the flag then wakes both) and abort-reason-before-cancel (E3/L5). The token/happens-before argument of std::thread::park is trusted, not decided.',
+                level='other', rules=[K.W_wait, K.W_producers],
+                explanation='park/unpark discipline, publish-before-notify and notify coverage decided on every MIR path; std park-token semantics trusted',
+                trusted_base=TB, assumptions=AS),
+    'C16': dict(claim='Decides the dependency-table decision tables (next/remove/commit/key_tx/add: V1), that every hold of DS[x] that leaves x claimable rewinds the execution cursor not before the lock (V2), publish_commit before tx_dependency.commit and the live cursor read inside DS[txid] (V3), lock order AF before DS (V4), that claimed indices reach execution_task (X5) and duplicate claims do not release dependants (N9). All interleavings as a whole are NOT claimed.',
+                level='other', rules=[D.V1_tables, D.V2_claimable_implies_rewind, D.V4_lock_order, S.N10_commit_loop, S.N9_incarnation, S.X_result_storage, S.X5_claims_are_consumed],
+                explanation='decision tables and cursor-rewind obligations of the dependency table, decided on every MIR path; the interleaving behaviour as a whole is not claimed',
+                trusted_base=TB, assumptions=AS),
+    'C02': dict(claim="Decides, on every MIR path of the anchored functions, the structural necessary conditions of the in-order/exactly-once/final commit mechanism: tick-before-scan (N1), marks-before-rewind (N2), publication-before-rewind (N3), new-location/conflict rewinds (N4/N5), finality decision table incl. carried lower timestamp (N6), rewinds under the issuer's TS guard (N7), status transition relation (N8), incarnation bump (N9), commit-loop take/publish/release order and exits (N10/V3/L3/E4/S3), outcome installation (N12), result storage and re-onboarding (X1-X5), minimum memory orderings A1-A5 and RMW kinds A6. That the committed value equals the in-order value for all blocks and schedules is NOT claimed.",
+                level='other', rules=[S.N1_timestamp_before_scan, S.N2_mark_before_rewind, S.N3_publish_before_rewind, S.N6_finality,
                                       S.N7_rewind_under_guard, S.N8_status_relation, S.N9_incarnation, S.N10_commit_loop, S.N12_install,
-                                      S.X_execute_task_tail, S.X_result_storage],
+                                      S.X_execute_task_tail, S.X_result_storage, K.A_atomics],
                 explanation='structural necessary conditions of the commit/finality mechanism, decided on every MIR path of the anchored functions; the behavioural statement as a whole is not claimed',
                 trusted_base=TB, assumptions=AS),
 }
